@@ -7,6 +7,8 @@ import registry, manifest_text as mt
 
 checks = []
 for pid in sorted(registry.PROPS):
+    if pid not in mt.READY:
+        continue
     t = mt.CHECKS[pid]
     checks.append({
         'property_id': pid,
@@ -20,14 +22,16 @@ for pid in sorted(registry.PROPS):
         'technique': t.get('technique', 'bounded model checking of the compiled Rust code: Kani proof harnesses over kani::any() inputs, '
                                         'CBMC bit-blasting, CaDiCaL SAT verdict; counter-examples replayed natively'),
     })
-na = [{'property_id': p, 'reason': r} for p, r in sorted(mt.NOT_APPLICABLE.items()) if p not in registry.PROPS]
+na = [{'property_id': p, 'reason': r} for p, r in sorted(mt.NOT_APPLICABLE.items())]
+na += [{'property_id': p, 'reason': mt._PENDING} for p in sorted(registry.PROPS) if p not in mt.READY]
+na.sort(key=lambda d: d['property_id'])
 m = {
     'version': 1,
     'setup_cmd': './setup.sh',
     'hooks': mt.HOOKS,
     'engines': [{
         'name': 'kani-incrate', 'path': '/verif/check',
-        'serves_properties': sorted(registry.PROPS),
+        'serves_properties': sorted(mt.READY),
         'kind_free_text': 'Kani 0.68 / CBMC 6.11 / CaDiCaL over a fresh snapshot of /repo/src with harness modules injected under cfg(kani); '
                           'native replay crate /verif/replay (path dependency on /repo) confirms every counter-example before it is reported',
     }],
